@@ -181,10 +181,7 @@ pub fn sub_predicates(c: &mut Case) -> CaseResult {
         let rrep = gen_rep(&mut c.tape, enc, 70);
         let l = mk(&mut c.tape, &lrep.ty(binary), &to_l(&hay))?;
         let rr = mk(&mut c.tape, &rrep.ty(binary), &to_l(&ndl))?;
-        if super::hits_empty_dict(mode, &l, &rr) && !c.strict {
-            c.exclude("like-empty-dictionary-values");
-            continue;
-        }
+        // (fixed finding like-empty-dictionary-values: dictionaries without values are compared like every other operand)
         c.class(lrep.class());
         for p in preds {
             let want: Vec<Option<bool>> = (0..rows)
